@@ -47,7 +47,23 @@ func (mb *mbox) newMessage() (*Message, error) {
 	}
 	date := time.Now()
 	id := generateID(date)
+	// The counter behind generateID restarts with the process, so after a restart it can repeat an
+	// id this mailbox already holds; never hand such an id out again.
+	for mb.hasID(id) {
+		date = time.Now()
+		id = generateID(date)
+	}
 	return &Message{mailbox: mb, Fid: id, Fdate: date}, nil
+}
+
+// hasID reports whether the loaded index holds a message with this ID.
+func (mb *mbox) hasID(id string) bool {
+	for _, m := range mb.messages {
+		if m.Fid == id {
+			return true
+		}
+	}
+	return false
 }
 
 // Mailbox returns the name of the mailbox this message resides in.
